@@ -225,9 +225,10 @@ impl Model {
     }
     fn force_closed(&mut self, now: u64) {
         if self.state == 0 {
-            if self.has(F_FC_CLEAR) {
-                self.clear();
-            }
+            // documented contrast: force_closed "forces the circuit into the closed state",
+            // reset "resets the circuit to the closed state and clears counts": forcing an
+            // already closed breaker closed changes nothing (F_FC_CLEAR is no longer a variant)
+            let _ = F_FC_CLEAR;
         } else {
             self.to(0, now);
         }
@@ -1041,7 +1042,7 @@ impl Prop for C04 {
         vec!["inner service (SimInner)"]
     }
     fn assumptions(&self) -> Vec<&'static str> {
-        vec!["documented ambiguities are a family: minimum calls counted in the window or since the last transition; force_open while open / force_closed while closed may or may not restart/clear; ties (age == window duration, elapsed == wait) go either way", "latency never equals the slow-call threshold"]
+        vec!["documented ambiguities are a family: minimum calls counted in the window or since the last transition; force_open while open may or may not restart the wait; ties (age == window duration, elapsed == wait) go either way", "latency never equals the slow-call threshold"]
     }
 }
 
